@@ -94,8 +94,17 @@ def confirm(spec):
 
 if __name__ == "__main__":
     jobs = int(sys.argv[1])
+    # changes that share a worktree are confirmed one after the other
+    groups = {}
+    for spec in sys.argv[2:]:
+        groups.setdefault(spec.split(":")[0], []).append(spec)
+
+    def run_group(specs):
+        return [confirm(s) for s in specs]
+
     with cf.ThreadPoolExecutor(jobs) as ex:
-        for mdir, res in ex.map(confirm, sys.argv[2:]):
-            print(mdir, "confirmed" if res.get("confirmed") else "NOT CONFIRMED",
-                  {k: res.get(k) for k in ("demo_pristine", "demo_with_change", "suite_with_change", "suite_failed_tests", "error")})
-            sys.stdout.flush()
+        for results in ex.map(run_group, groups.values()):
+            for mdir, res in results:
+                print(mdir, "confirmed" if res.get("confirmed") else "NOT CONFIRMED",
+                      {k: res.get(k) for k in ("demo_pristine", "demo_with_change", "suite_with_change", "suite_failed_tests", "error")})
+                sys.stdout.flush()
